@@ -18,6 +18,8 @@ var ErrContrainstTupleCycle = fmt.Errorf("%w: operands AND or BUT NOT cannot be 
 type WeightedAuthorizationModelGraph struct {
 	edges map[string][]*WeightedAuthorizationModelEdge
 	nodes map[string]*WeightedAuthorizationModelNode
+	// nodeOrder keeps the unique labels in insertion order so that traversals are deterministic.
+	nodeOrder []string
 }
 
 // GetEdges returns the edges map.
@@ -54,6 +56,9 @@ func (wg *WeightedAuthorizationModelGraph) AddNode(uniqueLabel, label string, no
 	if nodeType == SpecificTypeWildcard {
 		wildcards = []string{uniqueLabel[:len(uniqueLabel)-2]}
 	}
+	if _, exists := wg.nodes[uniqueLabel]; !exists {
+		wg.nodeOrder = append(wg.nodeOrder, uniqueLabel)
+	}
 	wg.nodes[uniqueLabel] = &WeightedAuthorizationModelNode{uniqueLabel: uniqueLabel, label: label, nodeType: nodeType, wildcards: wildcards}
 }
 
@@ -66,6 +71,7 @@ func (wg *WeightedAuthorizationModelGraph) GetOrAddNode(uniqueLabel, label strin
 	if nodeType == SpecificTypeWildcard {
 		wildcards = []string{uniqueLabel[:len(uniqueLabel)-2]}
 	}
+	wg.nodeOrder = append(wg.nodeOrder, uniqueLabel)
 	wg.nodes[uniqueLabel] = &WeightedAuthorizationModelNode{uniqueLabel: uniqueLabel, label: label, nodeType: nodeType, wildcards: wildcards}
 	return wg.nodes[uniqueLabel]
 }
@@ -128,7 +134,7 @@ func (wg *WeightedAuthorizationModelGraph) AssignWeights() error {
 	ancestorPath := make([]*WeightedAuthorizationModelEdge, 0)
 	tupleCycleDependencies := make(map[string][]*WeightedAuthorizationModelEdge)
 
-	for node := range wg.nodes {
+	for _, node := range wg.nodeOrder {
 		if visited[node] {
 			continue
 		}
